@@ -306,39 +306,39 @@ pub struct Additive {
 }
 
 /// One budget for everything: D open elements under an active selector VM (charged to the open-element stack) and an
-/// unfinished token buffered across two writes (charged to the parsing buffer) are both alive after the last write, so
+/// unfinished comment buffered across two writes (charged to the parsing buffer) are both alive after the last write, so
 /// the smallest sufficient limit of the combined document is at least the sum of the limits each part needs alone.
 pub fn check_additive(a: &Additive) -> Result<(usize, usize, usize), (String, String)> {
-    let cfg = Config { el: vec![ElH { selector: a.selector.clone(), element: true, ..Default::default() }], skip_end: true, ..Default::default() };
+    // a document-level comment handler keeps the parser lexing, so the unfinished comment is buffered in full and no
+    // partially read element is involved (when an unfinished *tag* is pushed on the open-element stack is an
+    // implementation choice this relation must not depend on)
+    let cfg = Config { el: vec![ElH { selector: a.selector.clone(), element: true, ..Default::default() }], doc: vec![DocH { comments: true, ..Default::default() }], skip_end: true, ..Default::default() };
     let mut nest: Vec<u8> = vec![];
     for _ in 0..a.depth {
         nest.extend_from_slice(format!("<{}>", a.name).as_bytes());
     }
-    let mut tok: Vec<u8> = b"<a href=\"".to_vec();
+    let mut tok: Vec<u8> = b"<!-- ".to_vec();
     while tok.len() < a.token_len {
         tok.push(b'u');
     }
     let split = a.split.clamp(1, tok.len() - 1);
     let mut both = nest.clone();
     both.extend_from_slice(&tok);
-    // the unfinished `<a href=...` may itself be pushed on the open-element stack as soon as its name is known, so the
-    // stack-only part contains an `<a>` too and the charge of a lone `<a>` is subtracted once
     let stack_only = {
         let mut v = nest.clone();
-        v.extend_from_slice(b"<a>x");
+        v.push(b'x');
         v
     };
-    let need_a = min_limit(&cfg, b"<a>x", &[])?;
     let need_stack = min_limit(&cfg, &stack_only, &[])?;
     let need_buf = min_limit(&cfg, &tok, &[split])?;
     let need_both = min_limit(&cfg, &both, &[nest.len() + split])?;
-    let (Some(s1), Some(s), Some(b), Some(t)) = (need_a, need_stack, need_buf, need_both) else {
+    let (Some(s), Some(b), Some(t)) = (need_stack, need_buf, need_both) else {
         return Err(("harness".into(), "additivity case does not succeed under 1 MiB".into()));
     };
-    if t + 8 < (s + b).saturating_sub(s1) {
+    if t + 8 < s + b {
         return Err((
             "limit-not-shared".into(),
-            format!("{} open <{}> elements plus <a> alone need a limit of {s} (a lone <a>: {s1}), a {}-byte unfinished <a ...> token split at {split} alone needs {b}, but both together succeed under {t} < {s} + {b} - {s1}: the open-element stack and the parsing buffer are not charged to one budget", a.depth, a.name, tok.len()),
+            format!("{} open <{}> elements alone need a limit of {s}, a {}-byte unfinished comment split at {split} alone needs {b}, but both together succeed under {t} < {s} + {b}: the open-element stack and the parsing buffer are not charged to one budget", a.depth, a.name, tok.len()),
         ));
     }
     Ok((s, b, t))
